@@ -67,6 +67,32 @@ func runC06(p *Prog, r *Result) {
 		r.Fatal = append(r.Fatal, sub.Fatal...)
 	}
 	checkLoopProgress(p, r, pkg)
+	r.Rule("R06j", "iterator literals never call yield after a point where it may have returned false without testing a stopped flag", 3)
+	checkIteratorProtocol(p, r, pkg, "syntax", "R06j")
+	r.Rule("R06i", "indexes at a constant position or constant offset on slices and strings in package syntax are dominated by a test of that value's length, or are reasoned exceptions", 60)
+	checkConstIndexes(p, r, pkg, "syntax", "R06i", c06IndexExceptions)
+}
+
+// c06IndexExceptions: function#indexed value -> the invariant relied upon. Reasoned, not proven; a triage run of
+// 342 420 parses of prefixes and one-byte mutations (tools/triage) found no panic at any of them after the fixes of §4.
+var c06IndexExceptions = map[string]string{
+	"syntax.(BraceExp).Pos#b.Elems":               "a BraceExp is only built by SplitBraces, which pushes an element when it opens the brace",
+	"syntax.SplitBraces#cur.Elems":                "cur is the innermost open brace, which received its first element when it was opened",
+	"syntax.(CallExpr).Pos#c.Args":                "the parser builds a CallExpr only once it has an assignment or a word; with no assignments there is a first word",
+	"syntax.(CallExpr).End#c.Assigns":             "reached only when there are no words, and then there is at least one assignment",
+	"syntax.(LetClause).End#l.Exprs":              "letClause reports `let clause requires at least one expression` otherwise",
+	"syntax.(Word).Pos#w.Parts":                   "the parser never builds a word without parts (recovery fills in a literal at the recovered position)",
+	"syntax.(Word).End#w.Parts":                   "as for Word.Pos",
+	"syntax.(Printer).wordParts#wps":              "called with the parts of a word or of quotes, which are never empty for parser-built trees",
+	"syntax.(Printer).decLevel#p.levelIncs":       "decLevel pops what the matching incLevel pushed (paired calls in every printer function)",
+	"syntax.(Parser).advanceLitHdoc#p.hdocStops":  "runs only while a here-document body is being read, after doHeredocs pushed its stop word",
+	"syntax.(Parser).quotedHdocWord#p.hdocStops":  "as for advanceLitHdoc",
+	"syntax.(Parser).doHeredocs#p.hdocStops":      "indexes the stop word it appended a few lines above",
+	"syntax.(Parser).advanceLitNone#p.litBs":      "newLit(r) started the literal with the current rune before the loop",
+	"syntax.(Parser).isLitRedir#lit":              "called when a redirection operator follows at least one literal byte; litBs then holds that byte and the operator",
+	"syntax.(Parser).doRedirect#r.N.Value":        "getLit returns literal tokens, which are never empty",
+	"syntax.(Parser).hasValidIdent#p.val":         "eqlOffs is the offset of '=' inside the current literal p.val: set by advanceLitNone for that token and cleared by next()",
+	"syntax.(Parser).getAssign#p.val":             "as for hasValidIdent",
 }
 
 // ---------------------------------------------------------------- R06a
@@ -1020,6 +1046,12 @@ func findBspMinus(info *types.Info, fd *ast.FuncDecl, e ast.Expr) ast.Expr {
 }
 
 var c06Controls = []Control{
+	{Name: "stmtsseq-yields-after-stop", Rule: "R06j", WantKey: "StmtsSeq#iterator literal", File: "syntax/parser.go",
+		Mutate: ctlReplaceAnywhere("\t\tif stopped {\n\t\t\treturn // yield must not be called again\n\t\t}\n", "")},
+	{Name: "interactiveseq-ignores-reader-stop", Rule: "R06j", WantKey: "InteractiveSeq#iterator literal", File: "syntax/parser.go",
+		Mutate: ctlReplaceAnywhere("\t\t\tif w.stopped {\n\t\t\t\tbreak\n\t\t\t}\n", "")},
+	{Name: "caseitem-pos-unguarded", Rule: "R06i", WantKey: "CaseItem).Pos#c.Patterns", File: "syntax/nodes.go",
+		Mutate: ctlReplaceAnywhere("\tif len(c.Patterns) == 0 {\n\t\t// Only possible when [RecoverErrors] stood in for missing patterns.\n\t\treturn recoveredPos\n\t}\n", "")},
 	{Name: "rune-loop-without-eof-test", Rule: "R06h", WantKey: "zshSubFlags#for loop 2", File: "syntax/parser.go",
 		Mutate: ctlReplace("Parser.zshSubFlags", "p.r != runeEOF && p.r != ',' && p.r != ']'", "p.r != ',' && p.r != ']'", 0)},
 	{Name: "rune-loop-that-can-stand-still", Rule: "R06h", WantKey: "zshSubFlags#for loop 1", File: "syntax/parser.go",
